@@ -4,9 +4,10 @@
    law assumed of them: for 16- and 32-byte keys AES decryption inverts AES encryption on 16-byte blocks,
    which stay 16 bytes.  [C05_aes_inverse] proves that law for the Gallina AES the runner executes
    ([concrete]), so every theorem below also holds outright for [P := concrete]. *)
-From LV Require Import Base.Bytes Model.Obj Model.Crypto.Word Model.Crypto.RC4 Model.Crypto.PKCS5
+From LV Require Import Base.Bytes Model.Obj Model.Crypto.Word Model.Crypto.RC4 Model.Crypto.PKCS5 Model.Crypto.SHA2
   Model.Crypto.Handler Proofs.CryptoProofs Proofs.CryptoProofsFilter Proofs.CryptoProofsObject
-  Proofs.CryptoProofsDoc Proofs.CryptoProofsExamples Proofs.CryptoProofsAES Model.Crypto.Concrete.
+  Proofs.CryptoProofsDoc Proofs.CryptoProofsExamples Proofs.CryptoProofsAES Model.Crypto.Concrete
+  Proofs.CryptoProofsSHA Proofs.IsoProofsDoc2 Proofs.IsoProofsDoc7 Proofs.CryptoProofsAuth Proofs.CryptoProofsRT.
 
 (* lopdf's RC4: decrypting what was encrypted under the same key gives the message back, for every key
    the constructor accepts (1..256 bytes; any other length panics = None) and every message *)
@@ -72,25 +73,137 @@ Theorem C05_object_rt_exact :
     encrypt_object P st id o ivs = Ok (o', ivs') -> decrypt_object P st id o' = Ok o.
 Proof. exact object_rt_exact. Qed.
 
-(* Document level.  Domain: object ids at or below max_id (the invariant add_object relies on), no stale
-   /Encrypt entry in the plain trailer, no /Type /ObjStm stream (decrypt_raw re-parses those: C08).
-   Whenever the password authenticates on the encrypted document and key recovery ([decode]) yields the
-   key / filters / EncryptMetadata that encrypted it, decrypt_raw returns Ok with: every object restored
-   (up to set_content's /Length), the trailer restored exactly (/Encrypt removed), the encryption
-   dictionary object removed, max_id one higher (add_object's increment is not undone).
-   PARTIAL: the two hypotheses on authentication and key recovery are discharged per revision only by the
-   correspondence runs so far (they hold on every generated case for user and owner passwords); their
-   Coq proofs (auth_user_ok / auth_owner_ok of DESIGN 6 C05) are not done. *)
-Theorem C05_document_rt_partial :
+(* ---------------- document level ---------------- *)
+(* [P : prims] now also carries [p_decompress] = Stream::decompress, which decrypt_raw reaches through
+   ObjectStream::new on every decrypted stream of Type ObjStm; every theorem holds whatever that function does.
+
+   Result of Document::decrypt after Document::encrypt, [plain_doc P st d]: the version, the binary mark and the
+   TRAILER of d exactly (Encrypt removed); every object restored -- [norm_objs st]: with Stream::set_content's Length
+   entries, i.e. the objects themselves when Length is right (C05_document_objects_exact) --; then decrypt_raw's
+   object-stream pass ([opened_objects]: streams of Type ObjStm are decompressed in place and their members added under
+   the numbers still free -- nothing happens without such streams: C05_opened_objects_plain); the encryption dictionary
+   object removed; max_id one higher (add_object's increment is not undone).
+   Domain: object ids at or below max_id (the invariant add_object relies on; without it encrypt overwrites an object
+   with the encryption dictionary), no stale Encrypt entry in the plain trailer, [version_in_domain v]: V1; V2 with
+   40..128 bits in steps of 8; V4; R5; V5 -- lopdf's Permissions (flag bits only), one crypt filter per name (BTreeMap),
+   Identity not redefined, StmF / StrF naming defined filters, no AESV3 under V4's 128-bit key, a 32-byte key for
+   R5 / V5.
+   [right_password P d1 v pw]: pw is the user password or the owner password of v (for V1 / V2 / V4 a non-empty one: an
+   empty owner password means there is none), with the two CRYPTOGRAPHIC side conditions spelled out: an owner
+   password of revision 2-4 either has the padded form of the user password (equal, or equal in the first 32 bytes) or
+   does not also pass the user check; a user password of revision 5/6 either has the truncated form of the owner
+   password (first 127 bytes) or does not also pass the owner check.  A password passing the other check is taken for
+   the other kind by lopdf (and by ISO 32000); that the key is then the same is not a logical fact.
+   NO hypothesis on authentication or on key recovery: DESIGN's auth_user_ok / auth_owner_ok and
+   "decode (encode st) = st up to what decrypt_object reads" ([st_equiv]) are proved for every revision
+   (Proofs/CryptoProofsAuth.v). *)
+Theorem C05_document_rt :
+  forall P,
+    (forall m, length (p_md5 P m) = 16%nat) -> aes_ok P ->
+    (forall m, length (p_sha256 P m) = 32%nat) -> (forall m, length (p_sha384 P m) = 48%nat) ->
+    (forall m, length (p_sha512 P m) = 64%nat) ->
+  forall d v rnd ivs st d1 pw,
+    version_in_domain v -> max_id_ok d -> dict_get (d_trailer d) K_Encrypt = None ->
+    try_from_version P d v rnd = Ok st -> doc_encrypt P st d ivs = DOk d1 tt ->
+    right_password P d1 v pw ->
+    exists st', doc_decrypt P d1 pw = DOk (plain_doc P st d) st' /\ st_equiv st st'.
+Proof. exact document_rt. Qed.
+
+(* the laws of the primitives are theorems for the Gallina MD5, AES and SHA-2 the runner executes ... *)
+Theorem C05_md5_length : forall m, length (Model.Crypto.MD5.md5 m) = 16%nat.
+Proof. exact md5_len16. Qed.
+Theorem C05_sha2_lengths :
+  (forall m, length (sha256 m) = 32%nat) /\ (forall m, length (sha384 m) = 48%nat) /\ (forall m, length (sha512 m) = 64%nat).
+Proof. exact (conj sha256_length (conj sha384_length sha512_length)). Qed.
+
+(* ... so for the executable model the round trip holds with no hypothesis on them, whatever Stream::decompress is *)
+Theorem C05_document_rt_concrete :
+  forall dec, let P := concrete_with dec in
+  forall d v rnd ivs st d1 pw,
+    version_in_domain v -> max_id_ok d -> dict_get (d_trailer d) K_Encrypt = None ->
+    try_from_version P d v rnd = Ok st -> doc_encrypt P st d ivs = DOk d1 tt ->
+    right_password P d1 v pw ->
+    exists st', doc_decrypt P d1 pw = DOk (plain_doc P st d) st' /\ st_equiv st st'.
+Proof. exact document_rt_concrete. Qed.
+
+(* the four cases one by one: user / owner password, revisions 2-4 and 5-6 *)
+Theorem C05_document_rt_user_r4 :
+  forall P, (forall m, length (p_md5 P m) = 16%nat) -> aes_ok P ->
+  forall d id0 v rnd ivs st d1,
+    file_id_0 d = Ok id0 -> version_ok v -> max_id_ok d -> dict_get (d_trailer d) K_Encrypt = None ->
+    try_from_version P d v rnd = Ok st -> doc_encrypt P st d ivs = DOk d1 tt ->
+    exists st', doc_decrypt P d1 (v_user v) = DOk (plain_doc P st d) st' /\ st_equiv st st'.
+Proof. exact document_rt_user_r4. Qed.
+
+Theorem C05_document_rt_owner_r4 :
+  forall P, (forall m, length (p_md5 P m) = 16%nat) -> aes_ok P ->
+  forall d id0 v rnd ivs st d1,
+    file_id_0 d = Ok id0 -> version_ok v -> max_id_ok d -> dict_get (d_trailer d) K_Encrypt = None ->
+    try_from_version P d v rnd = Ok st -> doc_encrypt P st d ivs = DOk d1 tt ->
+    v_owner v <> [] ->
+    pad_pw (v_owner v) = pad_pw (v_user v) \/ authenticate_raw_user_password P d1 (v_owner v) <> Ok tt ->
+    exists st', doc_decrypt P d1 (v_owner v) = DOk (plain_doc P st d) st' /\ st_equiv st st'.
+Proof. exact document_rt_owner_r4. Qed.
+
+Theorem C05_document_rt_owner_r6 :
+  forall P, aes_ok P ->
+    (forall m, length (p_sha256 P m) = 32%nat) -> (forall m, length (p_sha384 P m) = 48%nat) ->
+    (forall m, length (p_sha512 P m) = 64%nat) ->
+  forall d v rnd ivs st d1,
+    version_ok6 v -> max_id_ok d -> dict_get (d_trailer d) K_Encrypt = None ->
+    try_from_version P d v rnd = Ok st -> doc_encrypt P st d ivs = DOk d1 tt ->
+    exists st', doc_decrypt P d1 (v_owner v) = DOk (plain_doc P st d) st' /\ st_equiv st st'.
+Proof. exact document_rt_owner_r6. Qed.
+
+Theorem C05_document_rt_user_r6 :
+  forall P, aes_ok P ->
+    (forall m, length (p_sha256 P m) = 32%nat) -> (forall m, length (p_sha384 P m) = 48%nat) ->
+    (forall m, length (p_sha512 P m) = 64%nat) ->
+  forall d v rnd ivs st d1,
+    version_ok6 v -> max_id_ok d -> dict_get (d_trailer d) K_Encrypt = None ->
+    try_from_version P d v rnd = Ok st -> doc_encrypt P st d ivs = DOk d1 tt ->
+    trunc_pw (v_user v) = trunc_pw (v_owner v) \/ authenticate_raw_owner_password P d1 (v_user v) <> Ok tt ->
+    exists st', doc_decrypt P d1 (v_user v) = DOk (plain_doc P st d) st' /\ st_equiv st st'.
+Proof. exact document_rt_user_r6. Qed.
+
+(* the two ingredients, as DESIGN names them.  decode after encode: PasswordAlgorithm::try_from(&Document) reads the
+   dictionary EncryptionState::encode wrote back into the values of the state (V1 / V2 / V4; R5 / V5) ... *)
+Theorem C05_try_from_encode_r4 :
+  forall st, st_shape_r4 st -> st_len_ok st -> length (es_O st) = 32%nat -> length (es_U st) = 32%nat ->
+    Proofs.IsoProofsDoc.palg_of_dict (encode st) = Ok (palg_of_st st).
+Proof. exact palg_of_encode_r4. Qed.
+Theorem C05_try_from_encode_r6 :
+  forall st, st_shape_r6 st ->
+    length (es_O st) = 48%nat -> length (es_U st) = 48%nat -> length (es_OE st) = 32%nat -> length (es_UE st) = 32%nat ->
+    length (es_perms_enc st) = 16%nat ->
+    Proofs.IsoProofsDoc.palg_of_dict (encode st) = Ok (palg_of_st st).
+Proof. exact palg_of_encode_r6. Qed.
+(* ... and Document::get_crypt_filters reads the CF dictionary back into a map with the look-ups of the state's *)
+Theorem C05_crypt_filters_encode :
+  forall D st, get_encrypted D = Some (encode st) -> shape_v45 st -> NoDup (map fst (es_crypt_filters st)) ->
+  forall n, bt_get (get_crypt_filters D) n = bt_get (es_crypt_filters st) n.
+Proof.
+  intros D st Hge Hs ND. destruct (encode_entries st Hs ND) as (C1 & _).
+  exact (get_crypt_filters_encode D _ _ Hge ND C1).
+Qed.
+
+(* The general frame the four cases instantiate: ANY state (not only those try_from makes) -- whenever the password
+   authenticates on the encrypted document and key recovery yields the key / filters / EncryptMetadata that
+   encrypted it, decrypt_raw returns the plain document. *)
+Theorem C05_document_rt_any_state :
   forall P st d ivs d1 pw st',
-    aes_ok P -> max_id_ok d -> dict_get (d_trailer d) K_Encrypt = None -> has_objstm (d_objects d) = false ->
+    aes_ok P -> max_id_ok d -> dict_get (d_trailer d) K_Encrypt = None ->
     doc_encrypt P st d ivs = DOk d1 tt ->
     authenticate_raw_password P d1 pw = Ok tt ->
     decode P d1 pw = Ok st' -> st_equiv st st' ->
-    doc_decrypt_raw P d1 pw =
-      DOk {| d_version := d_version d; d_binary_mark := d_binary_mark d; d_trailer := d_trailer d;
-             d_objects := norm_objs st (d_objects d); d_max_id := (d_max_id d + 1)%N |} st'.
-Proof. exact doc_rt. Qed.
+    doc_decrypt_raw P d1 pw = DOk (plain_doc P st d) st'.
+Proof. exact doc_rt_gen. Qed.
+
+(* without a stream of Type ObjStm (and the number of the encryption dictionary free) the object-stream pass does
+   nothing: the objects of [plain_doc] are the restored objects *)
+Theorem C05_opened_objects_plain :
+  forall P m id e, ~ In id (map fst m) -> has_objstm m = false -> opened_objects P m id e = m.
+Proof. exact opened_objects_none. Qed.
 
 Theorem C05_document_objects_exact :
   forall st m, Forall (fun io => lengths_ok st (snd io)) m -> norm_objs st m = m.
@@ -139,6 +252,28 @@ Proof.
         (conj ex_v2_wrong ex_v4_wrong)))))))).
 Qed.
 
+(* the hypotheses of C05_document_rt are satisfiable: versions V1, V2, V4, V5 in the domain; on the V2 example the
+   owner password does not pass the user check (the side condition of right_password) *)
+Theorem C05_example_rt_hypotheses :
+  (version_in_domain ex_v1 /\ version_in_domain ex_v2 /\ version_in_domain ex_v4 /\ version_in_domain ex_v5) /\
+  match ex_enc ex_v2 with
+  | Some d1 => match authenticate_raw_user_password concrete d1 ex_owner with Err D_IncorrectPassword => true | _ => false end
+  | None => false
+  end = true.
+Proof. exact (conj ex_versions ex_owner_not_user). Qed.
+
+(* decrypt_raw's object-stream pass on a document holding a stream of Type ObjStm with the members 7 and 5: both are
+   added (ObjectStream::new through Model/ObjStm.v), the stream stays; when the encryption dictionary has the number 7,
+   the member 7 is not added *)
+Theorem C05_example_objstm :
+  has_objstm ex_os = true /\
+  map fst (objstm_pass concrete ex_os) = [(1, 0); (4, 0); (5, 0); (7, 0)]%N /\
+  lookup (objstm_pass concrete ex_os) (7, 0)%N = Some (OStr (bs "hi") false) /\
+  map fst (opened_objects concrete ex_os (7, 0)%N []) = [(1, 0); (4, 0); (5, 0)]%N.
+Proof.
+  destruct ex_objstm_pass as (H1 & H2 & H3). rewrite H2. split; [exact H1|]. split; [reflexivity|]. split; [reflexivity|exact H3].
+Qed.
+
 Theorem C05_example_pkcs5 :
   pkcs5_pad (bs "0123456789abcdef") = bs "0123456789abcdef" ++ repeat x10 16 /\
   pkcs5_pad (bs "abc") = bs "abc" ++ repeat x0d 13.
@@ -153,7 +288,19 @@ Print Assumptions C05_aes_differs.
 Print Assumptions C05_rc4_differs_partial.
 Print Assumptions C05_object_rt.
 Print Assumptions C05_object_rt_exact.
-Print Assumptions C05_document_rt_partial.
+Print Assumptions C05_document_rt.
+Print Assumptions C05_md5_length.
+Print Assumptions C05_sha2_lengths.
+Print Assumptions C05_document_rt_concrete.
+Print Assumptions C05_document_rt_user_r4.
+Print Assumptions C05_document_rt_owner_r4.
+Print Assumptions C05_document_rt_owner_r6.
+Print Assumptions C05_document_rt_user_r6.
+Print Assumptions C05_try_from_encode_r4.
+Print Assumptions C05_try_from_encode_r6.
+Print Assumptions C05_crypt_filters_encode.
+Print Assumptions C05_document_rt_any_state.
+Print Assumptions C05_opened_objects_plain.
 Print Assumptions C05_document_objects_exact.
 Print Assumptions C05_reject_leaves_unchanged.
 Print Assumptions C05_aes_inverse.
@@ -161,3 +308,5 @@ Print Assumptions C05_object_rt_concrete.
 Print Assumptions C05_example_rc4.
 Print Assumptions C05_example_pkcs5.
 Print Assumptions C05_example_document.
+Print Assumptions C05_example_rt_hypotheses.
+Print Assumptions C05_example_objstm.
